@@ -7,8 +7,10 @@ CONSTANT Depth      \* simulation: behaviours are printed when they reach this l
 LevelBound == TLCGet("level") <= Depth
 
 \* one JSON line per simulated behaviour (spec -> impl replay)
+\* a simulated trace that dies before Depth (a category without enabled action) is not lost entirely: its first half
+\* is printed too; the behaviour generator drops a half whose full trace follows
 EmitAtDepth ==
-    (TLCGet("level") = Depth) =>
+    (TLCGet("level") = Depth \/ TLCGet("level") = (Depth \div 2) + 1) =>
         PrintT(<<"REPLAY", ToJson([cfg |-> [pathReq |-> opt.pathReq, enc |-> opt.enc, jit |-> opt.jit, retention |-> Retention, window |-> Window, psk |-> pskStore, parties |-> Parties, creator |-> Creator, capX |-> CapX, capY |-> CapY, features |-> Features],
                                    steps |-> [i \in 1..Len(hist) |-> hist[i] @@ [aux |-> haux[i]]]])>>)
 
